@@ -11,7 +11,7 @@ def rq(name):
 
 def int_edges(f, getname, value):
     """edges of switches on <getter>(arg1).0 with the given value"""
-    return f.gate_edges(lambda d, v, vals: isinstance(d, tuple) and d[0] == 'field' and d[2] == '0' and rq(getname)(d[1]) and v == value)
+    return value_edges(f, rq(getname), value)
 
 
 def code_zero_edges(f, getname):
